@@ -124,7 +124,15 @@ func runSolver(sd solverDef, file string, sec, seed int) Result {
 		st = "error"
 	}
 	if len(o) > 4000 {
-		o = o[:4000]
+		tail := ""
+		if i := strings.Index(o, "OBSERVED"); i >= 0 {
+			tail = o[i:]
+			if len(tail) > 8000 {
+				tail = tail[:8000]
+			}
+			tail = "\n...\n" + tail
+		}
+		o = o[:4000] + tail
 	}
 	return Result{Status: st, Solver: sd.name, Seconds: el, Output: o}
 }
@@ -140,14 +148,14 @@ type Discharger struct {
 }
 
 // solve decides one query text. Solvers are tried in turn until one gives a definite answer.
-func (d *Discharger) solve(text string, wantModel bool) Result {
+func (d *Discharger) solve(text string, wantModel bool, observe string) Result {
 	h := sha256.Sum256([]byte(text))
 	key := hex.EncodeToString(h[:])
 	cfile := filepath.Join(d.cache, key[:2], key)
 	if !d.noCache && !d.all {
 		if b, err := os.ReadFile(cfile); err == nil {
 			parts := strings.SplitN(string(b), "\n", 3)
-			if len(parts) >= 2 && (parts[0] == "unsat" || parts[0] == "sat" || (!wantModel && parts[0] != "error")) {
+			if len(parts) >= 2 && (parts[0] == "unsat" || (parts[0] == "sat" && (observe == "" || strings.Contains(string(b), "OBSERVED"))) || (!wantModel && parts[0] != "error")) {
 				r := Result{Status: parts[0], Solver: parts[1], Cached: true}
 				if len(parts) == 3 {
 					r.Output = parts[2]
@@ -159,7 +167,7 @@ func (d *Discharger) solve(text string, wantModel bool) Result {
 	file := filepath.Join(d.dir, key[:24]+".smt2")
 	t := text
 	if wantModel {
-		t += "(get-model)\n"
+		t += "(get-model)\n" + observe
 	}
 	if err := os.WriteFile(file, []byte(t), 0o644); err != nil {
 		return Result{Status: "error", Output: err.Error()}
@@ -212,13 +220,42 @@ type job struct {
 	res  Result
 }
 
+// observeCmd: the get-value command for the observation terms of q all of whose symbols are
+// declared in the query text (an undeclared heap component is unconstrained: any value fits).
+func observeCmd(q *Query, text string) string {
+	if len(q.Observe) == 0 {
+		return ""
+	}
+	var ts []string
+	for _, o := range q.Observe {
+		ok := true
+		for _, sym := range symRe.FindAllString(o.Term, -1) {
+			switch sym {
+			case "select", "at", "sl_len", "sl_arr", "sl_off", "sl_cap":
+				continue
+			}
+			if !strings.Contains(text, "(declare-const "+sym+" ") && !strings.Contains(text, "(declare-fun "+sym+" ") {
+				ok = false
+			}
+		}
+		if ok {
+			ts = append(ts, o.Term)
+		}
+	}
+	if len(ts) == 0 {
+		return ""
+	}
+	return "(echo \"OBSERVED\")\n(get-value (" + strings.Join(ts, " ") + "))\n"
+}
+
 func (d *Discharger) solveAll(jobs []*job, workers int) {
 	// identical query texts are solved once
 	type group struct {
-		text  string
-		model bool
-		jobs  []*job
-		res   Result
+		text    string
+		model   bool
+		observe string
+		jobs    []*job
+		res     Result
 	}
 	byText := map[string]*group{}
 	var groups []*group
@@ -236,6 +273,9 @@ func (d *Discharger) solveAll(jobs []*job, workers int) {
 		g.jobs = append(g.jobs, j)
 		if j.q.Expect == "unsat" {
 			g.model = true
+			if g.observe == "" {
+				g.observe = observeCmd(j.q, j.text)
+			}
 		}
 	}
 	var wg sync.WaitGroup
@@ -245,7 +285,7 @@ func (d *Discharger) solveAll(jobs []*job, workers int) {
 		go func() {
 			defer wg.Done()
 			for g := range ch {
-				g.res = d.solve(g.text, g.model)
+				g.res = d.solve(g.text, g.model, g.observe)
 			}
 		}()
 	}
